@@ -180,40 +180,59 @@ def r9c(fb, rep):
 def r9g(fb, rep):
     """a send that reports success has enqueued the value: exactly-once delivery starts with an honest result"""
     R = "R9g"
-    rep.rule(R, "channel send reports Ok only after the value was enqueued, and Err when the copy into the owner's heap failed")
-    # found by role: the primitive that both copies into the owner's heap and enqueues
-    cands = [x for x in fb.bodies.values() if x.crate.name == "gluon_vm" and x.kind == "fn"
-             and any(c.res.endswith("channel::Sender::<T>::send") for c in x.calls())
+    rep.rule(R, "channel send reports Ok only after the value was enqueued, and not when the copy into the owner's heap failed")
+    SENDER = "gluon_vm::channel::Sender"
+    # enqueue = push_back on Sender.queue, directly or through a function that does it (found by role, not by name)
+    direct = set()
+    for x in fb.bodies.values():
+        if x.crate.name != "gluon_vm":
+            continue
+        for c in x.calls():
+            if c.res.endswith("VecDeque::<T, A>::push_back") and c.args and ("field", SENDER, "queue") in flow.sources(x, c.args[0], depth=12):
+                direct.add(x.id)
+
+    def enq_calls(x):
+        return [c for c in x.calls() if (c.res.endswith("VecDeque::<T, A>::push_back") and c.args and ("field", SENDER, "queue") in flow.sources(x, c.args[0], depth=12))
+                or (c.res in direct and c.res != x.id)]
+    cands = [x for x in fb.bodies.values() if x.crate.name == "gluon_vm" and x.kind == "fn" and enq_calls(x)
              and any(c.res.endswith("::deep_clone_value") for c in x.calls())]
     if len(cands) != 1:
-        rep.anchor_lost(R, "the send primitive (deep_clone_value + Sender::send): %d candidates" % len(cands))
+        rep.anchor_lost(R, "the function that copies a value into the channel owner's heap and enqueues it: %d candidates" % len(cands))
         return
     b = cands[0]
-    enq = [c for c in b.calls() if c.res.endswith("channel::Sender::<T>::send")]
-    clone = [c for c in b.calls() if c.res.endswith("ThreadInternal>::deep_clone_value") or c.res.endswith("ThreadInternal::deep_clone_value")]
+    enq = enq_calls(b)
+    clone = [c for c in b.calls() if c.res.endswith("::deep_clone_value")]
     oks = set(flow.blocks_constructing(b, "core::result::Result", "Ok"))
-    errs = set(flow.blocks_constructing(b, "core::result::Result", "Err"))
-    if not enq or not clone or not oks:
-        rep.anchor_lost(R, "send: deep_clone_value / Sender::send / Ok result (%d/%d/%d)" % (len(clone), len(enq), len(oks)))
+    if not oks:
+        rep.anchor_lost(R, "%s builds no Ok result" % b.id)
         return
     bad = [i for i in oks if not any(b.dominates(c.bb, i) for c in enq)]
     if bad:
-        rep.violation(R, "ok-without-enqueue", "channel::send can report Ok(()) on a path that did not enqueue the value (Sender::send does not dominate the Ok result): "
-                      "a failed deep clone would be reported as a successful send that is never delivered", b.where(), path=sorted(bad))
+        rep.violation(R, "ok-without-enqueue", "%s can report Ok(()) on a path that did not enqueue the value (the push_back does not dominate the Ok result): "
+                      "a failed deep clone would be reported as a successful send that is never delivered" % b.id, b.where(), path=sorted(bad))
     else:
-        rep.ok(R, "send: every Ok(()) result is dominated by Sender::send (the push_back)")
-    # the Err edge of the clone leads to an Err result without enqueueing
+        rep.ok(R, "%s: every Ok(()) result is dominated by the enqueue" % b.id)
+    # the failure edge of the copy (Err of the Result, or Break of `?`) reaches a return without enqueueing and without building Ok
+    derived = flow.derived_locals(b, clone[0].dest[0]) if clone[0].dest is not None else set()
+    for c in b.calls():   # map_err(..) / Try::branch(..) of the clone's result
+        if c.args and op_place(c.args[0]) is not None and op_place(c.args[0])[0] in derived and c.dest is not None and \
+                c.res.rsplit("::", 1)[1] in ("map_err", "branch", "or_else", "map"):
+            derived |= flow.derived_locals(b, c.dest[0])
+            for c2 in b.calls():
+                if c2.args and op_place(c2.args[0]) is not None and op_place(c2.args[0])[0] in derived and c2.dest is not None and c2.res.rsplit("::", 1)[1] in ("branch",):
+                    derived |= flow.derived_locals(b, c2.dest[0])
     good = False
     for bb, place, m, other in enum_switches_any(b):
-        if not place[1] and place[0] == clone[0].dest[0] and 1 in m and 0 in m:
-            err_region = b.reachable(m[1], avoid_blocks=[bb]) - b.reachable(m[0], avoid_blocks=[bb])
-            if (errs & err_region) and not any(c.bb in b.reachable(m[1], avoid_blocks=[bb] + [m[0]]) and c.bb in err_region for c in enq):
+        if not place[1] and place[0] in derived and 1 in m:
+            fail_edge = m[1]
+            okside = [t for v, t in m.items() if v != 1] + ([other] if other is not None else [])
+            region = b.reachable(fail_edge, avoid_blocks=[bb]) - b.reachable(okside, avoid_blocks=[bb])
+            if not any(c.bb in region for c in enq) and not (oks & region):
                 good = True
-            break
     if good:
-        rep.ok(R, "send: a failed copy into the channel owner's heap is reported as Err(()) and nothing is enqueued")
+        rep.ok(R, "%s: a failed copy into the channel owner's heap is propagated as a failure and nothing is enqueued" % b.id)
     else:
-        rep.violation(R, "clone-failure-not-reported", "channel::send no longer turns a failed deep_clone_value into Err(())", b.where())
+        rep.violation(R, "clone-failure-not-reported", "%s no longer turns a failed deep_clone_value into a failure result" % b.id, b.where())
 
 
 def r9d(fb, rep):
